@@ -316,7 +316,7 @@ def gen_matrix(rng, max_rows, max_cols):
     cols = []
     kinds = []
     for _ in range(c):
-        k = rng.choice(["uniform", "uniform", "ints", "const", "two_values", "shifted"])
+        k = rng.choice(["uniform", "uniform", "ints", "const", "two_values", "shifted", "tiny", "huge"])
         if k == "uniform":
             col = [rng.uniform(-10, 10) for _ in range(r)]
         elif k == "ints":
@@ -327,6 +327,12 @@ def gen_matrix(rng, max_rows, max_cols):
         elif k == "two_values":
             a, b = rng.uniform(-10, 10), rng.uniform(-10, 10)
             col = [a if rng.random() < 0.5 else b for _ in range(r)]
+        elif k == "tiny":
+            sc = 10.0 ** rng.randint(-12, -7)          # non-constant columns on a very small scale
+            col = [sc * rng.uniform(1, 9) for _ in range(r)]
+        elif k == "huge":
+            sc = 10.0 ** rng.randint(6, 12)
+            col = [sc * rng.uniform(-9, 9) for _ in range(r)]
         else:
             base = rng.uniform(100, 1000)
             col = [base + rng.uniform(-1, 1) for _ in range(r)]
